@@ -371,7 +371,34 @@ def rule_ops(fx, out):
                     'forwards to %s' % what if ok else 'the functor body is not a single forwarding expression (%s; %d blocks, %d calls): the array form no longer runs the C++ function the scalar binding runs' % (top, len(f.blocks), len(calls)), f['loc']))
     return n
 
-RULES = [('range', rule_range_index), ('len', rule_len), ('wr', rule_wr), ('gil', rule_gil), ('ops', rule_ops)]
+def rule_unmasked(fx, out):
+    """where an argument is accepted because its length equals the *unmasked* length of a masked array (X.len() ==
+    Y.unmaskedLength()), element k of the masked view is element raw_ptr_index(k) of the argument: the task built on that
+    branch must be one whose execute() maps the index through raw_ptr_index"""
+    n = 0
+    mapping = set(); tasks = set()
+    for f in fx.fns:
+        if f.name.split('::')[-1] == 'execute' and f.get('cls'):
+            tasks.add(f['cls'])
+            if any(e['k'] == 'call' and e['name'].endswith('raw_ptr_index') for e in f.events): mapping.add(f['cls'])
+    seen = set()
+    for f in fx.fns:
+        if f.key in seen: continue
+        cs = [c for c in f.conds() if 'unmaskedLength()' in c and '.len()' in c and '==' in c]
+        if not cs: continue
+        seen.add(f.key)
+        C = cs[0]
+        for e in f.events:
+            if e['k'] != 'construct' or e.get('cls') not in tasks: continue
+            if f.reaches(e, {C: False}) or not f.reaches(e, {C: True}): continue
+            n += 1
+            ok = e['cls'] in mapping
+            out.append(('R20.len', 'unmasked:%s@%s' % (sname(f), e['loc'].rsplit(':', 2)[-2]), HOLDS if ok else VIOLATED,
+                        'task %s maps the index through raw_ptr_index' % e['cls'] if ok else
+                        'on the branch %s the task %s indexes the argument with the position in the masked view; the argument has the unmasked length, so element k must be taken at raw_ptr_index(k)' % (C, e['cls']), e['loc']))
+    return n
+
+RULES = [('range', rule_range_index), ('len', rule_len), ('wr', rule_wr), ('gil', rule_gil), ('ops', rule_ops), ('unmasked', rule_unmasked)]
 
 def main(rep, ws, tier):
     repo = build.REPO
@@ -394,6 +421,7 @@ def main(rep, ws, tier):
     rep.floor('vectorised apply functions', counts['wr'], 8)
     rep.floor('GIL obligations', counts['gil'], 40)
     rep.floor('operator functors', counts['ops'], 30)
+    rep.floor('unmasked-length branches', counts['unmasked'], 2)
     rep.trusted[:] = ['clang 14 front end (AST, CFG) through tools/pyrules', 'Boost.Python / CPython headers as installed']
     rep.assumptions += ['accessor operator[] reads/writes exactly the element of its index (R19.wguard covers the writable ones)',
                         'the WorkerPool calls execute() only with sub-ranges of [0, length) (its implementation is supplied by the host application)']
